@@ -200,6 +200,36 @@ mod verif_standins_decode {
     #[test] fn standin_key_decode_validation() { check::<1>(); check::<3>(); check::<5>(); }
 }
 
+// the byte string of a public key (hashed into the channel id): every element, in order
+#[cfg(test)]
+mod verif_standins_bytes {
+    use super::*;
+    use rand::SeedableRng;
+    fn check<const N: usize>() {
+        let mut rng = rand::rngs::StdRng::seed_from_u64(0xc18);
+        let kp = KeyPair::<N>::new(&mut rng);
+        let pk = kp.public_key();
+        let mut want: Vec<u8> = Vec::new();
+        want.extend_from_slice(pk.g1.to_compressed().as_ref());
+        for y in pk.y1s.iter() { want.extend_from_slice(y.to_compressed().as_ref()); }
+        want.extend_from_slice(pk.g2.to_compressed().as_ref());
+        want.extend_from_slice(pk.x2.to_compressed().as_ref());
+        for y in pk.y2s.iter() { want.extend_from_slice(y.to_compressed().as_ref()); }
+        assert_eq!(pk.to_bytes(), want, "STANDIN PublicKey::to_bytes: not the concatenation of g1, Y_1..Y_N, g~, X~, Y~_1..Y~_N (N = {})", N);
+        // a key that differs in a single element has different bytes
+        let other = KeyPair::<N>::new(&mut rng);
+        for i in 0..N {
+            let mut k = pk.clone(); k.y2s[i] = other.public_key().y2s[i];
+            assert!(k.to_bytes() != pk.to_bytes(), "STANDIN PublicKey::to_bytes: Y~_{} does not enter the byte string (N = {})", i, N);
+            let mut k = pk.clone(); k.y1s[i] = other.public_key().y1s[i];
+            assert!(k.to_bytes() != pk.to_bytes(), "STANDIN PublicKey::to_bytes: Y_{} does not enter the byte string (N = {})", i, N);
+        }
+        let mut k = pk.clone(); k.x2 = other.public_key().x2;
+        assert!(k.to_bytes() != pk.to_bytes(), "STANDIN PublicKey::to_bytes: X~ does not enter the byte string");
+    }
+    #[test] fn standin_public_key_bytes() { check::<1>(); check::<5>(); }
+}
+
 // test-only constructor for the stand-ins of sibling modules
 #[cfg(test)]
 pub(crate) mod standin_access_impl {
